@@ -197,8 +197,8 @@ def run(c):
         "stub channels write at most the capacity they are offered",
         "a Command Reject / unaccepted response may be discarded silently or answered with Command Reject (Core spec "
         "Vol 3 Part A 4: responses with unknown identifier are silently discarded; property text: rejected)"]
-    if not c.replay:
-        vlib.model_check(c, "L2cap", "L2cap.tla", "MC.cfg" if c.quick else "MCfull.cfg", workers=4)
+    # (also in replay mode, so that the evidence file of a replay run is complete)
+    vlib.model_check(c, "L2cap", "L2cap.tla", "MC.cfg" if c.quick or c.replay else "MCfull.cfg", workers=4)
     exe = vlib.build(c, "l2cap_h", ["l2cap/l2cap_harness.cpp"])
     if c.replay:
         return replay(c, exe)
